@@ -327,7 +327,10 @@ func (res *CheckResult) checkVarOrigin(fnCall parser.FnCall, decl parser.VarDecl
 		resolution, ok := resolution.(VarOriginFnCallResolution)
 		if ok {
 			res.fnCallResolution[decl.Origin.Caller] = resolution
-			res.assertHasType(decl.Name, resolution.Return, decl.Type.Name)
+			// name or type may be missing while the declaration is being typed
+			if decl.Name != nil && decl.Type != nil {
+				res.assertHasType(decl.Name, resolution.Return, decl.Type.Name)
+			}
 		}
 	}
 
